@@ -176,7 +176,7 @@ func (p *MinQueriesPlanner) generatePlans(ctx *PlanningContext, query *ast.Query
 					SelectionSet:        ast.SelectionSet{},
 					InsertionPoint:      payload.InsertionPoint,
 					Variables:           Set{},
-					FragmentDefinitions: payload.Fragments,
+					FragmentDefinitions: ast.FragmentDefinitionList{},
 				}
 
 				// if there is a parent to this query
@@ -205,6 +205,7 @@ func (p *MinQueriesPlanner) generatePlans(ctx *PlanningContext, query *ast.Query
 				// the steps of the walk add any necessary selectedFields
 				newSelection, err := p.extractSelection(ctx, &extractSelectionConfig{
 					addStep:        addStep,
+					fragments:      payload.Fragments,
 					locations:      ctx.Locations,
 					parentLocation: payload.Location,
 					parentType:     step.ParentType,
@@ -262,6 +263,9 @@ type extractSelectionConfig struct {
 	parentLocation string
 	parentType     string
 	step           *QueryPlanStep
+	// fragments holds the definitions this step was created with. They describe the part of each
+	// fragment that lives at this step's location and take precedence over the ones in the plan.
+	fragments      ast.FragmentDefinitionList
 	plan           *QueryPlan
 	selection      ast.SelectionSet
 	insertionPoint []string
@@ -371,6 +375,7 @@ func (p *MinQueriesPlanner) extractSelection(ctx *PlanningContext, config *extra
 				// add any possible selections provided by this fields selections
 				subSelection, err := p.extractSelection(ctx, &extractSelectionConfig{
 					addStep:        config.addStep,
+					fragments:      config.fragments,
 					step:           config.step,
 					locations:      config.locations,
 					parentLocation: config.parentLocation,
@@ -415,19 +420,18 @@ func (p *MinQueriesPlanner) extractSelection(ctx *PlanningContext, config *extra
 			// any variables that the directives on the spread depend on are used by this step
 			addDirectiveVariables(config.step, selection.Directives)
 
-			// grab the official definition for the fragment.
-			// we could have overwritten the definition to fit the local needs of the top level
-			// ie if there is a branch off of one that happens mid-fragment.
-			defn := config.step.FragmentDefinitions.ForName(selection.Name)
-			addDefn := false
+			// grab the part of the fragment that lives at this location. Grouping the selection set
+			// already split the fragment by location and sent the other parts to their own steps, so
+			// walking the full definition again would plan those steps a second time.
+			defn := locationFragments[config.parentLocation].ForName(selection.Name)
 			if defn == nil {
-				addDefn = true
-				defn = config.plan.FragmentDefinitions.ForName(selection.Name)
+				return nil, fmt.Errorf("Could not find definition for fragment: %s", selection.Name)
 			}
 
 			// compute the actual selection set for the fragment coming from this location
 			subSelection, err := p.extractSelection(ctx, &extractSelectionConfig{
 				addStep:        config.addStep,
+				fragments:      config.fragments,
 				step:           config.step,
 				locations:      config.locations,
 				parentLocation: config.parentLocation,
@@ -443,20 +447,18 @@ func (p *MinQueriesPlanner) extractSelection(ctx *PlanningContext, config *extra
 				return nil, err
 			}
 
-			// if the step does not have a definition for this fragment
-			if addDefn {
-				// we're going to leave a different fragment definition behind for this step
-				config.step.FragmentDefinitions = append(config.step.FragmentDefinitions,
-					&ast.FragmentDefinition{
-						Name:          selection.Name,
-						TypeCondition: defn.TypeCondition,
-						Directives:    defn.Directives,
-					},
-				)
+			// leave the definition of the local part of the fragment behind for this step
+			localDefn := &ast.FragmentDefinition{
+				Name:          selection.Name,
+				TypeCondition: defn.TypeCondition,
+				Directives:    defn.Directives,
+				SelectionSet:  subSelection,
 			}
-
-			// we need to make sure that this steps fragment definitions always match our expecatations
-			config.step.FragmentDefinitions.ForName(selection.Name).SelectionSet = subSelection
+			if existing := config.step.FragmentDefinitions.ForName(selection.Name); existing != nil {
+				*existing = *localDefn
+			} else {
+				config.step.FragmentDefinitions = append(config.step.FragmentDefinitions, localDefn)
+			}
 
 		case *ast.InlineFragment:
 			ctx.Gateway.logger.Debug("found an inline fragment. extracting to ", config.insertionPoint, ". Parent insertion", config.insertionPoint)
@@ -477,6 +479,7 @@ func (p *MinQueriesPlanner) extractSelection(ctx *PlanningContext, config *extra
 			// add any possible selections provided by selections
 			subSelection, err := p.extractSelection(ctx, &extractSelectionConfig{
 				addStep:        config.addStep,
+				fragments:      config.fragments,
 				step:           config.step,
 				locations:      config.locations,
 				parentLocation: config.parentLocation,
@@ -638,8 +641,8 @@ func (p *MinQueriesPlanner) groupSelectionSet(ctx *PlanningContext, config *extr
 			// a fragments fields can span multiple services so a single fragment can result in many selections being added
 			fragmentLocations := map[string]ast.SelectionSet{}
 
-			// look up if we already have a definition for this fragment in the step
-			defn := config.step.FragmentDefinitions.ForName(selection.Name)
+			// look up if this step was created with its own definition of the fragment
+			defn := config.fragments.ForName(selection.Name)
 
 			// if we don't have it
 			if defn == nil {
@@ -694,6 +697,7 @@ func (p *MinQueriesPlanner) groupSelectionSet(ctx *PlanningContext, config *extr
 				locationFragments[location] = append(locationFragments[location], &ast.FragmentDefinition{
 					Name:          selection.Name,
 					TypeCondition: defn.TypeCondition,
+					Directives:    defn.Directives,
 					SelectionSet:  selectionSet,
 				})
 			}
